@@ -31,35 +31,28 @@ PROPS = {
          "Proved: leaf split (halves, sibling link, flags), unlink of the next leaf, sortedness/pairing preserved by "
          "every leaf mutator. Bounded: node invariants I1-I9 after every call of both implementations (hist_rt wf mode).",
          "A1-A3, A7; L-height / L-chain argued in DESIGN.md 5.4", "7/C03"),
- "C06": (True, "exploration", "bounded run-time contract stand-in (pickle_rt); pickle/copy are library code outside both engines",
-         "Bounded only: get/setstate, pickle protocols 0-5, copy, C/Python byte identity and cross-loading over reached states.",
-         "bounded scope stated in evidence; several recorded findings", "7/C06"),
- "C07": (True, "other", T_P + "; bounded exhaustive run-time contract stand-in (merge_rt) against the statement's three-way-merge oracle",
-         "Proved: the state unwrapping of tree conflict resolution (_get_simple_btree_bucket_state: one-leaf states unwrap, every "
-         "multi-leaf state is refused with reason 11, malformed shapes raise TypeError). Bounded, exhaustive over the stated scope: "
-         "the merge itself - all triples over 4 keys x 2 values / 5 keys, links, malformed shapes, both implementations (merge_rt).",
-         "the declarative merge invariant of DESIGN.md 7/C07 is not discharged; recorded finding: malformed leaf states", "7/C07"),
+ "C06": (True, "other", T_P + BOUNDED,
+         'Proved (Python): Bucket/Set __getstate__ emit the documented tuple, __setstate__ reads it back (TypeError exactly for a non-tuple), and the round trip x.__setstate__(y.__getstate__()) restores ordered contents, link and sortedness (lemma programs over the contracts). Bounded: tree states, pickle protocols 0-5, copy, C/Python byte identity and cross-loading, stored containers (pickle_rt).',
+         'A1, A7; pickle/copy and the C state code are outside both engines; recorded findings (non-root node inlining its only leaf, copy.copy of a Python tree, fs memo sharing)', "7/C06 and 12"),
+ "C07": (True, "proof", T_P + "; bounded exhaustive run-time contract stand-in (merge_rt) for the C implementation and reason-code agreement",
+         "Proved (Python, both leaf kinds, all six loops): the merge is returned exactly when the statement says - on a normal return the state holds, in key order, exactly C's entry for keys C changed and N's entry otherwise (values included), no key changed by both, first-key rule, equal links, non-empty sides and merge; every raise site is justified by its reason class; only BTreesConflictError is raised; one-leaf tree states unwrap, multi-leaf states are refused (reason 11). Bounded, exhaustive over the stated scope: the C implementation and reason-code agreement (merge_rt).",
+         'A1, A2, A7; _SetIteration.__init__ over a leaf is an assumed contract; quick tier verifies the state-shape cases listed in evidence (all 27 per function in the thorough tier); recorded finding: malformed leaf states', "7/C07 and 12"),
  "C09": (True, "other", T_P + "; " + T_C + BOUNDED,
          "Both implementations proved against one contract where both proofs exist (Python leaf layer and tree entry "
          "points convert first / report absence; C integer conversions F-CONV); agreement over histories is the "
          "bounded relational stand-in (hist_rt twin mode).",
          "A1-A7; two recorded findings (TreeSet &= shape, empty-leaf minKey)", "7/C09"),
- "C10": (True, "proof", T_P + BOUNDED,
-         "Proved for all strictly ascending operand sequences (BTrees containers, duplicate-free sorted iterables): Python union, "
-         "intersection and difference return a new, strictly sorted container whose key set is exactly the mathematical result, "
-         "None rules, operands unmodified (frame); the cursor (_SetIteration.advance) is proved against its abstraction and two "
-         "lemmas about prefix sets are proved by induction. Bounded: the C implementation, operators, in-place forms, plain "
-         "iterables with duplicates (setop_rt).",
-         "A1-A3, A7; _SetIteration.__init__ is an ASSUMED contract (sorted()/getattr dispatch outside the subset), cross-checked by "
-         "setop_rt; five recorded findings (duplicates, reflected operators, ^= with duplicates, generators, rsub with mappings)", "7/C10"),
+ "C10": (True, "proof", T_P + "; " + T_C + BOUNDED,
+         'Proved for all strictly ascending operand sequences: Python union, intersection and difference return a new, strictly sorted container whose key set is exactly the mathematical result, None rules, operands unmodified; cursor and prefix-set lemmas proved; every loop head carries a vacuity guard (which found and removed an unsoundness of the earlier proofs, DESIGN 12.1). C: the set-algebra entry points access operand vectors only on activated nodes (T-USE). Bounded: C results, operators, in-place forms, plain iterables, lazy views, stored/ghost operands (setop_rt).',
+         'A1-A4b, A7; _SetIteration.__init__ is an ASSUMED contract; five recorded findings (duplicates, reflected operators, ^= with duplicates, generators, rsub with mappings)', "7/C10 and 12"),
  "C11": (True, "other", T_C + BOUNDED,
          "Proved per translation unit (bit-vector validity over the declared key type): the pile order of the most significant "
          "radix pass agrees with KEY_TYPE's order. Bounded: everything else of multiunion - distribution passes, quicksort, uniq, "
          "gather, Python fallback (multiunion_rt, both sides of the 800-element switch, extremes, top-bit keys).",
          "A5, A7; the lemma assumes the other passes are stable distribution sorts (bounded)", "7/C11"),
- "C12": (True, "exploration", "bounded exhaustive run-time contract stand-in (weighted_rt)",
-         "Bounded only: operand kinds x weights over 4 keys, all numeric-valued families, both implementations.",
-         "weighted merge contracts not discharged yet", "7/C12"),
+ "C12": (True, "proof", T_P + BOUNDED,
+         'Proved (Python): weightedUnion / weightedIntersection from their real bodies with the real MERGE and apply_weight inlined: None rules and weights, new strictly sorted container of the documented kind, exact key set, and value[r] == v1*w1 + v2*w2 (set member counts one, lone key v*w) for every result position incl. the operand swap; value arithmetic is uninterpreted (+ commutative), so the clause is the formula itself for every numeric family. Bounded: the C implementation, None keys, all operand kinds (weighted_rt).',
+         'A1, A2, A7; attached:* obligations tie MERGE/MERGE_WEIGHT/MERGE_DEFAULT to _module_builder/_datatypes as read from source; _SetIteration.__init__ assumed', "7/C12 and 12"),
  "C13": (True, "proof", T_C + "; " + T_P + BOUNDED,
          "Proved, loop-free and complete per site: every integer and float conversion site of the C translation units "
          "(accept exactly the representable ints, exact value, TypeError on reject); Python: tree and leaf entry points "
@@ -67,11 +60,9 @@ PROPS = {
          "every entry point (conv_rt).",
          "A4 API contracts of PyLong_AsLong & co., A5 clang AST == compiled code, A7; floats are opaque handles "
          "(rounding facts not proved); recorded findings for float range, setstate, default-comparison lookups", "7/C13"),
- "C18": (True, "other", T_P + BOUNDED,
-         "Proved: Checker.check_sorted records an error exactly when some key violates its lower bound, its upper bound or the order "
-         "(loop invariant over all key lists and bounds). Bounded: valid trees accepted and single corruptions applied through "
-         "__setstate__ rejected by check() / _check(), both implementations (checkers_rt).",
-         "Checker.complain is abstracted (appends one error); Walker.walk and _check are not under contract; recorded finding: None as bound sentinel", "7/C18"),
+ "C18": (True, "other", T_P + "; " + T_C + BOUNDED,
+         "Proved (Python): Checker.check_sorted records an error exactly when a key violates its bounds or the order; _Tree._check returns normally iff the node-local pointer clauses hold and every child was checked with its successor's first bucket, and raises AssertionError only if a local clause fails. C: BTree_check_inner reads its children only when activated (T-USE). Bounded: valid trees (also stored, with every ghost pattern) accepted and every single corruption of the catalogue at every position of 2-4 level trees rejected, both implementations (checkers_rt).",
+         'Checker.complain abstracted; Walker.walk not under contract; recorded finding: None as bound sentinel; fixed: C _check accepted an empty interior node (4418969)', "7/C18 and 12"),
  "C19": (True, "proof", T_P,
          "Proved for unbounded integers: every method of BTrees.Length, the resolution formula in both orders. "
          "Pickle/copy survival is a bounded run-time check.", "A1, A7", "7/C19"),
@@ -80,10 +71,11 @@ PROPS = {
          "Bounded: interior nodes, the C implementation, commit/reload/abort end to end with a stub data manager (persist_rt).",
          "A1-A3, A7; L-persist argued in DESIGN.md 5.4; T-DIRTY for C not discharged; recorded finding: non-root node inlining its only leaf", "7/C04"),
  "C05": (True, "proof", T_C + BOUNDED,
-         "Proved for every function of the translation units, every exit: no pin outlives the call (T-PIN over the real "
-         "->state field, Houdini-chosen loop invariants, callees by the same contract). Bounded: transparent reload and "
-         "protection during comparisons (evict_rt: sweeps between calls and inside comparisons).",
-         "A4 which API calls may run Python, A5, A6, A7; T-USE not discharged; recorded finding: no pinning in the Python implementation", "7/C05"),
+         "Proved for every function of the translation units, every exit: no pin outlives the call (T-PIN), and every access to a node's vectors "
+         "happens while the node is not a ghost (T-USE: inferred caller-activates protocol proved at every call site, un-pin summaries as a fixpoint of "
+         "per-function proofs, Houdini loop invariants). Bounded: transparent reload and protection during comparisons "
+         "(evict_rt: sweeps between calls and inside comparisons, incl. range queries on fully evicted trees and splits under eviction).",
+         "A4, A4b (Python code run inside an operation does not modify its nodes), A5, A6, A6b (acyclicity), A7; vector pointers that outlive the pin are not covered; recorded finding: no pinning in the Python implementation", "7/C05 and 12.3"),
  "C08": (True, "other", T_P + "; " + T_C + BOUNDED,
          "Proved: the read-dependency sentence in both implementations (P:RC typestate on _Tree._set/_del and the tree "
          "lookups; T-RC on all C functions) and the reason-11 refusal. Not within reach of this family: outcomes over "
@@ -147,10 +139,10 @@ def main():
             "add_only": True,
         },
         "engines": [
-            {"name": "pyvc", "path": "pyvc/", "serves_properties": ["C01", "C02", "C03", "C04", "C08", "C09", "C13", "C14", "C19"],
+            {"name": "pyvc", "path": "pyvc/", "serves_properties": ["C01", "C02", "C03", "C04", "C05", "C06", "C07", "C08", "C09", "C10", "C12", "C13", "C14", "C18", "C19"],
              "kind_free_text": "Engine P: symbolic execution of /repo/src/BTrees/*.py read with ast on every run against sidecar contracts (contracts/py_*.py); one z3 query per clause and path; grounded refutation + native replay"},
-            {"name": "cvc", "path": "cvc/", "serves_properties": ["C05", "C09", "C13", "C16"],
-             "kind_free_text": "Engine C: symbolic execution with state merging of the clang JSON AST of each _XXBTree.c translation unit; obligation families T-PIN, F-CONV, T-REF"},
+            {"name": "cvc", "path": "cvc/", "serves_properties": ["C05", "C08", "C09", "C10", "C11", "C13", "C14", "C16", "C17", "C18"],
+             "kind_free_text": "Engine C: symbolic execution with state merging of the clang JSON AST of each _XXBTree.c translation unit; obligation families T-PIN, T-USE, F-CONV, T-REF, T-RC, M-ALLOC, F-SORT"},
             {"name": "rtc", "path": "rtc/", "serves_properties": sorted(PROPS),
              "kind_free_text": "bounded run-time contract stand-ins over stated finite scopes; labelled bounded, never counted as proved"},
         ],
